@@ -297,6 +297,29 @@ def gen(rng, idx, tier):
                     tags.append((t, "dflt"))
         ls = tags
     features, rules = S.gsub_alternates(rng, desc, languagesystems=ls, rules=rules)
+    ds_rules = None
+    if stratum == "default" and rng.random() < 0.08:
+        # the font as the default master of a two-master designspace with two RULES that swap the
+        # same letter for different, unencoded alternates: the alternates are that letter's
+        # script and direction (the compilers tell the feature writers about rule substitutions)
+        letters_ = [n for n in names if desc[n]["kind"] == "letter" and desc[n]["script"]
+                    and n not in skip and not desc[n]["mark"]]
+        if has_rtl:
+            letters_ = [n for n in letters_ if all(S.script_direction(x) == "RTL" for x in desc[n]["script"])] or letters_
+        if letters_:
+            x_ = rng.choice(letters_)
+            alts_ = [x_ + ".rule1", x_ + ".rule2"]
+            if not any(a in desc for a in alts_):
+                for a in alts_:
+                    glyphs.append(S._spec(rng, a, []))
+                    desc[a] = S.describe(a, [], "alternate", [x_])
+                kerning = [k for k in kerning if k[0] not in alts_ and k[1] not in alts_]
+                kerning.append([alts_[0], alts_[0], rng.choice([-40, 30])])
+                kerning.append([alts_[0], alts_[1], rng.choice([-25, 15])])
+                kerning.append([x_, alts_[1], -10])
+                ds_rules = [[x_, alts_[0]], [x_, alts_[1]]]
+                rules = rules + [{"type": "single", "feature": "rvrn", "in": [x_], "out": a}
+                                 for a in alts_]
     lib = {}
     cats = rng.random() < 0.5
     if cats:
@@ -347,7 +370,7 @@ def gen(rng, idx, tier):
     return {"stratum": stratum, "chain": chain, "warmup": warmup,
             "ufo": {"glyphs": glyphs, "kerning": kerning, "groups": groups, "features": features,
                     "lib": lib, "info": {"unitsPerEm": 1000, "familyName": "T", "styleName": "R"}},
-            "rules": rules, "lib": rng.choice(["defcon", "ufoLib2"]),
+            "rules": rules, "ds_rules": ds_rules, "lib": rng.choice(["defcon", "ufoLib2"]),
             "writer": writer,
             "quantization": rng.choice([1, 1, 5, 2, 10]), "skip": skip}
 
@@ -422,7 +445,31 @@ def run(case):
         except Exception:  # noqa: BLE001 - the other font is not the subject
             bump("warmup_compile_failed")
     try:
-        tt = ufo2ft.compileTTF(font, featureWriters=writers, useProductionNames=False)
+        if case.get("ds_rules"):
+            import copy
+            from vf.build import build_designspace
+            other = copy.deepcopy(spec)
+            other["info"] = dict(other["info"], styleName="B")
+            for g_ in other["glyphs"]:
+                g_["width"] = g_["width"] + (20 if g_["width"] else 0)
+            other["kerning"] = [[l_, r_, v_ - 5] for l_, r_, v_ in other["kerning"]]
+            ds = {"axes": [{"name": "Weight", "tag": "wght", "min": 400, "default": 400, "max": 900}],
+                  "ufos": [spec, other],
+                  "sources": [{"ufo": 0, "location": {"Weight": 400}, "name": "regular"},
+                              {"ufo": 1, "location": {"Weight": 900}, "name": "bold"}],
+                  "rules": [{"name": "r%d" % i, "conditionSets": [[{"name": "Weight", "minimum": lo, "maximum": hi}]],
+                             "subs": [sub]} for i, (sub, (lo, hi)) in enumerate(zip(
+                                 case["ds_rules"], [(600, 750), (750, 900)]))]}
+            if case["skip"]:
+                # (on the designspace paths the designspace's own list counts)
+                ds["lib"] = {"public.skipExportGlyphs": list(case["skip"])}
+            doc, _ = build_designspace(ds, case["lib"])
+            res = ufo2ft.compileInterpolatableTTFsFromDS(doc, featureWriters=writers,
+                                                         useProductionNames=False)
+            tt = res.sources[0].font
+            bump("fonts_compiled_as_default_master_with_designspace_rules")
+        else:
+            tt = ufo2ft.compileTTF(font, featureWriters=writers, useProductionNames=False)
         buf = io.BytesIO()
         tt.save(buf)
     except Exception:  # noqa: BLE001
